@@ -37,6 +37,7 @@ func runC18(w *World, r *Report) {
 	c18Resolve(w, r)
 	c18FreshRead(w, r)
 	c18ResolveAlways(w, r)
+	c18GetAny(w, r)
 }
 
 // c18Filter is shared with C20/NIL-ELEM (rule name passed in).
@@ -1037,5 +1038,55 @@ func c18ResolveAlways(w *World, r *Report) {
 			}
 		}
 		r.Check(ok, "C18/RESOLVE-ALWAYS", fmt.Sprintf("download#%d", i+1), w.InstrPos(d), "the dependencies are downloaded only after the ranges were resolved", "dependencies can be downloaded without resolving the declared ranges in this run (versions reused from the lock file): a higher version that satisfies the range and is in the index is not picked")
+	}
+}
+
+// c18GetAny: an empty version means "the best stable version": the constraint used for it is "*"
+// (every released version, including 0.0.0), and nothing narrower.
+func c18GetAny(w *World, r *Report) {
+	r.Rule("C18/GET-ANY", "in IndexFile.Get every constant constraint string handed to semver.NewConstraint is \"*\" (the empty version matches every stable version)", 1)
+	fn := w.Fn("pkg/repo", "IndexFile.Get")
+	if fn == nil {
+		r.Unk("C18/GET-ANY", "anchor", "-", "IndexFile.Get not found")
+		return
+	}
+	r.Fn(FuncName(fn))
+	n := 0
+	for _, c := range callInstrs(fn) {
+		f, _ := calleeOf(c.Common())
+		if f == nil || FuncName(f) != "github.com/Masterminds/semver/v3.NewConstraint" {
+			continue
+		}
+		var consts []string
+		var walk func(v ssa.Value, d int)
+		seen := map[ssa.Value]bool{}
+		walk = func(v ssa.Value, d int) {
+			if seen[v] || d > 6 {
+				return
+			}
+			seen[v] = true
+			if s, ok := constString(v); ok {
+				consts = append(consts, s)
+				return
+			}
+			switch x := v.(type) {
+			case *ssa.Phi:
+				for _, e := range x.Edges {
+					walk(e, d+1)
+				}
+			case *ssa.UnOp:
+				if gl, ok := x.X.(*ssa.Global); ok {
+					_ = gl
+				}
+			}
+		}
+		walk(c.Common().Args[0], 0)
+		for _, s := range consts {
+			n++
+			r.Check(s == "*", "C18/GET-ANY", fmt.Sprintf("constraint:%q", s), w.InstrPos(c), "the default constraint is \"*\"", fmt.Sprintf("the constraint used when no version was asked for is %q, which is narrower than \"*\": a chart whose only (or highest) stable version it excludes is reported as not found", s))
+		}
+	}
+	if n == 0 {
+		r.Unk("C18/GET-ANY", "no-const", w.Pos(fn.Pos()), "IndexFile.Get hands no constant constraint to semver.NewConstraint")
 	}
 }
